@@ -65,6 +65,7 @@ def _case(draw, tier):
             },
             "runs": runs,
             "reopen": draw(st.booleans()),
+            "shared_meta": draw(st.booleans()),
         })
     return {"desc": desc, "ops": ops}
 
